@@ -103,6 +103,10 @@ def relink_rules(ctx, toks):
             while toks[j].t != '>': j += 1
             k = skipq(len(out)); ws = out[k].ws if k < len(out) else t.ws; del out[k:]
             out.append(Tok('id', 'DataArrayP', ws)); i = j + 1; fire(ctx, 'shared-ptr-handle'); continue
+        if seq_at(toks, i, ['block', '->', 'getEntity', '<']):
+            j = i + 4
+            while toks[j].t != '>': j += 1
+            out.append(Tok('id', 'getArrayEntity', t.ws)); i = j + 1; fire(ctx, 'get-entity'); continue
         if seq_at(toks, i, ['block', '(', ')', '->', 'getEntity', '<']):
             j = i + 6
             while toks[j].t != '>': j += 1
@@ -208,9 +212,11 @@ RUNITS = {'MultiTagHDF5_positions_set': dict(file=MT, locator=r'void\s+MultiTagH
                                               inherited_methods=['group', 'forceUpdatedAt', 'getArrayEntity'], member_calls={'positions': 'MultiTagHDF5_positions', 'checkDimensions': 'MultiTagHDF5_checkDimensions'}),
           'MultiTagHDF5_extents_set': dict(file=MT, locator=r'void\s+MultiTagHDF5::extents\s*\((?=\s*const\s+std::string\s*&)', cls='MultiTagHDF5', cls_file=MTH, classes=RLCL, pre_rules=[relink_rules],
                                             inherited_methods=['group', 'forceUpdatedAt', 'getArrayEntity'], member_calls={'positions': 'MultiTagHDF5_positions', 'checkDimensions': 'MultiTagHDF5_checkDimensions'})}
+RUNITS['FeatureHDF5_data_set'] = dict(file='backend/hdf5/FeatureHDF5.cpp', locator=r'void\s+FeatureHDF5::data\s*\((?=\s*const\s+std::string\s*&)', cls='FeatureHDF5', cls_file='backend/hdf5/FeatureHDF5.hpp',
+    classes=['FeatureHDF5', 'H5Group', 'DataArrayP', 'nstring'], pre_rules=[relink_rules], inherited_methods=['group', 'forceUpdatedAt', 'getArrayEntity'])
 RLX = ('int gh_rl_found, gh_rl_target_grp, gh_rl_target_shape, gh_rl_pos_shape, gh_rl_has_old, gh_rl_removes, gh_rl_links, gh_rl_link_target, gh_rl_link_after_removes, gh_rl_updates, gh_rl_name_ok, gh_rl_remove_name_ok;\n')
 UNITS.update(RUNITS); UNITS.update(SLUNITS); UNITS.update(CMUNITS)
-JOBS = JOBS + [dict(name=fn, bodies=[fn], enforce=[fn], replace=[], includes=['c08_relink.h'], extra_c=RLX, defines=['RL_NAME="%s"' % ('positions' if 'positions' in fn else 'extents')], expect_kinds=['postcondition'], timeout=300) for fn in RUNITS]
+JOBS = JOBS + [dict(name=fn, bodies=[fn], enforce=[fn], replace=[], includes=['c08_relink.h'], extra_c=RLX, defines=['RL_NAME="%s"' % ('positions' if 'positions' in fn else ('extents' if 'extents' in fn else 'data'))], expect_kinds=['postcondition'], timeout=300) for fn in RUNITS]
 JOBS = JOBS + [dict(name=fn, bodies=[fn], enforce=[fn], replace=[], includes=['c08_relink.h'], extra_c=RLX + SLX, defines=['RL_NAME="%s"' % ('metadata' if 'metadata' in fn else 'link')], expect_kinds=['postcondition'], timeout=300) for fn in SLUNITS]
 JOBS = JOBS + [dict(name='BlockHDF5_createMultiTag', bodies=['BlockHDF5_createMultiTag'], enforce=['BlockHDF5_createMultiTag'], replace=[], includes=['c08_relink.h'], extra_c=RLX + SLX + CMX, defines=['RL_NAME="multi_tags"'], expect_kinds=['postcondition'], timeout=300)]
 SPEC = dict(contracts=['nd.h', 'c08_gate.h', 'c14_prop.h', 'c08_relink.h'], stubs=[], include_order=['nd.h', 'c08_gate.h'], units=UNITS, jobs=JOBS, trusted_base=TRUST, assumptions=ASSUME)
